@@ -3,6 +3,7 @@
 package raft
 
 import (
+	"context"
 	"fmt"
 	"io/ioutil"
 	"math/rand"
@@ -10,6 +11,7 @@ import (
 	"path/filepath"
 	"strconv"
 	"strings"
+	"time"
 
 	"github.com/santhosh-tekuri/raft/log"
 )
@@ -230,6 +232,37 @@ func crashsimMain(args []string) int {
 		os.RemoveAll(im.base)
 		c.close()
 	}
+	// a process that dies while serving leaves its lock file behind: can the node be served again?
+	func() {
+		dir := simTempDir(root, "crlock")
+		defer os.RemoveAll(dir)
+		if err := SetIdentity(dir, 7, 1); err != nil {
+			return
+		}
+		if err := lockDir(dir); err != nil { // what Serve did before the process was killed
+			return
+		}
+		r, err := New(simOptions(1024), &simFSM{}, dir)
+		if err != nil {
+			w.findings = append(w.findings, "C10|restart-fails|New on a directory with a stale lock file: "+err.Error()+"|")
+			return
+		}
+		l := newBlockedListener()
+		done := make(chan error, 1)
+		go func() { done <- r.Serve(l) }()
+		select {
+		case err := <-done:
+			if err == ErrLockExists {
+				w.findings = append(w.findings, "C10|stale-lock|after a crash of the serving process the lock file remains and Serve returns ErrLockExists|")
+			}
+		case <-time.After(2 * time.Second):
+			_ = r.Shutdown(context.Background())
+			<-done
+		}
+		_ = l.Close()
+		_ = r.log.Close()
+		tot.images++
+	}()
 	var pts []string
 	for k, v := range tot.points {
 		pts = append(pts, fmt.Sprintf("%s=%d", k, v))
